@@ -27,7 +27,7 @@ def tok(op):
     k = op[0]
     if k in ("if", "ii", "il"):
         return "%s,%d,%s" % (k, op[1], hx(op[2]))
-    if k in ("ai", "al", "as", "ar"):
+    if k in ("ai", "al", "as", "ar", "ars"):
         return "%s,%s" % (k, hx(op[1]))
     return ",".join([k] + [str(x) for x in op[1:]])
 
@@ -90,7 +90,7 @@ def oracle(xs, op, capn, T):
     if k == "an":
         c, x = op[1], op[2]
         return fits(c) and byte(x), [x] * max(c, 0), None, c
-    if k in ("ai", "al", "ar"):
+    if k in ("ai", "al", "ar", "ars"):
         ys = list(op[1])
         return fits(len(ys)), ys, None, len(ys)
     if k == "as":
@@ -136,7 +136,7 @@ def menu_full(n, capn):
     m += [("rv", c, x) for c in range(0, capn + 2) for x in vals]
     m += [("rd", c) for c in range(0, capn + 2)]
     m += [("an", c, x) for c in range(0, capn + 2) for x in vals]
-    for k in ("ai", "al", "as", "ar"):
+    for k in ("ai", "al", "as", "ar", "ars"):
         m += [(k, ys) for ys in ls]
         m += [(k, (A, B, A, B)), (k, (A,) * (capn + 1))] if k != "al" else [(k, (A, B, A, B))]
     return m
@@ -154,7 +154,7 @@ def menu_red(n, capn):
          ("if", 0, (A, B)), ("if", n, (B,)), ("ii", n, (B, A)), ("ii", 0, (A,)), ("il", mid, (A,)),
          ("il", n, (B, A)),
          ("rs", n + 1), ("rs", max(n - 1, 0)), ("rv", n + 2, B), ("rd", n + 1), ("rd", max(n - 1, 0)),
-         ("an", 2, B), ("ai", (A, B)), ("al", (B,)), ("as", (B, A)), ("ar", ()), ("ar", (A, B, B))]
+         ("an", 2, B), ("ai", (A, B)), ("al", (B,)), ("as", (B, A)), ("ar", ()), ("ar", (A, B, B)), ("ars", (B, A, A)), ("ars", ())]
     if n >= 1:
         m += [("i1s", 0, n - 1), ("i1s", mid, n - 1), ("ins", 0, 2, mid), ("rvs", n + 2, 0),
               ("pbs", 0), ("i1s", n, 0)]
@@ -215,7 +215,7 @@ def random_seq(rng, xs0, capn, T, length, alphabet_full=True):
         room = ms - n
         want_invalid = rng.chance(1, 400)
         k = rng.choice(["pb", "pop", "e1", "er", "er", "i1", "in", "if", "ii", "il", "rs", "rv", "rd", "an",
-                        "ai", "al", "as", "ar", "clr", "er", "i1", "if"])
+                        "ai", "al", "as", "ar", "ars", "clr", "er", "i1", "if"])
         if rng.chance(1, 3) and n < ms // 2:
             k = rng.choice(["pb", "i1", "in", "if", "ii", "il", "rs", "rv"])
         p = rng.below(n + 1)
@@ -256,7 +256,7 @@ def random_seq(rng, xs0, capn, T, length, alphabet_full=True):
             # std::vector too, so only resize gets an aliasing argument)
             if k == "rv" and n and rng.chance(1, 3) and not want_invalid:
                 o = ("rvs", o[1], rng.below(n))
-        elif k in ("ai", "ar", "as"):
+        elif k in ("ai", "ar", "ars", "as"):
             ys = lst(min(ms, 12), nonzero=(k == "as"))
             if want_invalid:
                 ys = tuple(1 + rng.below(255) for _ in range(ms + 1))
